@@ -1,6 +1,8 @@
 package modelchk
 
 import (
+	"bytes"
+	"encoding/json"
 	"fmt"
 	"testing"
 
@@ -41,7 +43,24 @@ type c12Case struct {
 	Reqs          []c12Req  `json:"reqs,omitempty"`
 	Progress      []bool    `json:"progress,omitempty"` // return value of the k-th Tick (false beyond)
 	InTick        [][]c12Op `json:"in_tick,omitempty"`  // calls made from inside the k-th Tick
+
+	// Checkpoint leg: 0 none; 1 = after the calls before Run (the usual
+	// kick-off) and before Run; 2 = after RunUntil(CkptAt). The engine's and
+	// the component's checkpoints are saved (exported SaveCheckpoint), a fresh
+	// engine + component are built, both are loaded, PostLoad is issued (the
+	// kick-off of a resumed main()) and the run continues.
+	Ckpt     int     `json:"ckpt,omitempty"`
+	CkptAt   uint64  `json:"ckpt_at,omitempty"`
+	PostLoad []c12Op `json:"post_load,omitempty"`
 }
+
+const (
+	c12CkptNone = iota
+	c12CkptBeforeRun
+	c12CkptRunUntil
+)
+
+func init() { timing.RegisterEvent(c12HelperEvent{}) }
 
 type c12Spec struct {
 	Freq uint64 `json:"freq"`
@@ -68,6 +87,11 @@ type c12Run struct {
 	port  messaging.Port
 	log   []c12Entry
 	evSeq int
+
+	// what the checkpoint leg saw
+	restored             bool
+	tickQueuedAtSaveTime bool // the saved engine queue held a tick of the component for exactly the engine's time
+	postLoadCalls        int
 }
 
 func (r *c12Run) do(ops []c12Op) {
@@ -115,40 +139,98 @@ func (h *c12Helper) Handle(e timing.Event) error {
 	return nil
 }
 
+func (r *c12Run) build() {
+	c := r.c
+	eng := timing.NewSerialEngine()
+	r.eng = eng
+	reg := modeling.NewStandaloneRegistrar(eng)
+	eng.AcceptHook(&netHook{f: func(ctx hooking.HookCtx) {
+		if ctx.Pos == timing.HookPosBeforeEvent {
+			r.evSeq++
+		}
+	}})
+	comp := modeling.NewBuilder[c12Spec, c12State, modeling.None]().
+		WithEngine(eng).
+		WithFreq(timing.Freq(c.Freq)).
+		WithSpec(c12Spec{Freq: c.Freq}).
+		Build("Dut")
+	if c.SecondaryComp {
+		// exactly what directconnection.Builder does
+		comp.TickingComponent = modeling.NewSecondaryTickingComponent("Dut", eng, timing.Freq(c.Freq), comp)
+	}
+	comp.AddMiddleware(&c12MW{r: r})
+	comp.DeclarePort("In")
+	r.port = modeling.MakePortBuilder().WithRegistrar(reg).WithComponent(comp).
+		WithSpec(modeling.PortSpec{BufSize: 1}).Build("In")
+	comp.AssignPort("In", r.port)
+	r.comp = comp
+	eng.RegisterHandler("Helper", &c12Helper{r: r})
+}
+
+// tickQueuedAt reports whether the engine checkpoint holds an event of handler
+// "Dut" for exactly the engine's saved time.
+func c12TickQueuedAtSaveTime(engCkpt []byte) bool {
+	type payload struct {
+		Payload struct {
+			Time      uint64 `json:"time"`
+			HandlerID string `json:"handler_id"`
+		} `json:"payload"`
+	}
+	var dto struct {
+		Time      uint64    `json:"time"`
+		Primary   []payload `json:"primary"`
+		Secondary []payload `json:"secondary"`
+	}
+	if json.Unmarshal(engCkpt, &dto) != nil {
+		return false
+	}
+	for _, p := range append(dto.Primary, dto.Secondary...) {
+		if p.Payload.HandlerID == "Dut" && p.Payload.Time == dto.Time {
+			return true
+		}
+	}
+	return false
+}
+
 func runC12(c c12Case) (r *c12Run, ok bool, sig, msg string) {
 	timing.ResetIDGenerator()
-	r = &c12Run{c: c, eng: timing.NewSerialEngine()}
+	r = &c12Run{c: c}
 	ok, sig, msg = kit.Guard(func() {
-		eng := r.eng
-		reg := modeling.NewStandaloneRegistrar(eng)
-		eng.AcceptHook(&netHook{f: func(ctx hooking.HookCtx) {
-			if ctx.Pos == timing.HookPosBeforeEvent {
-				r.evSeq++
-			}
-		}})
-		comp := modeling.NewBuilder[c12Spec, c12State, modeling.None]().
-			WithEngine(eng).
-			WithFreq(timing.Freq(c.Freq)).
-			WithSpec(c12Spec{Freq: c.Freq}).
-			Build("Dut")
-		if c.SecondaryComp {
-			// exactly what directconnection.Builder does
-			comp.TickingComponent = modeling.NewSecondaryTickingComponent("Dut", eng, timing.Freq(c.Freq), comp)
-		}
-		comp.AddMiddleware(&c12MW{r: r})
-		comp.DeclarePort("In")
-		r.port = modeling.MakePortBuilder().WithRegistrar(reg).WithComponent(comp).
-			WithSpec(modeling.PortSpec{BufSize: 1}).Build("In")
-		comp.AssignPort("In", r.port)
-		r.comp = comp
-		eng.RegisterHandler("Helper", &c12Helper{r: r})
+		r.build()
 		for i, q := range c.Reqs {
 			ev := c12HelperEvent{EventBase: timing.MakeEventBase(timing.VTimeInPicoSec(q.At), "Helper"), Index: i}
 			ev.Secondary = q.Secondary
-			eng.Schedule(ev)
+			r.eng.Schedule(ev)
 		}
 		r.do(c.Setup)
-		if err := eng.Run(); err != nil {
+		if c.Ckpt != c12CkptNone {
+			if c.Ckpt == c12CkptRunUntil {
+				if err := r.eng.RunUntil(timing.VTimeInPicoSec(c.CkptAt)); err != nil {
+					panic(fmt.Sprintf("RunUntil returned %v", err))
+				}
+			}
+			var engCkpt, compCkpt bytes.Buffer
+			if err := r.eng.SaveCheckpoint(&engCkpt); err != nil {
+				panic(fmt.Sprintf("engine SaveCheckpoint: %v", err))
+			}
+			if err := r.comp.SaveCheckpoint(&compCkpt); err != nil {
+				panic(fmt.Sprintf("component SaveCheckpoint: %v", err))
+			}
+			r.tickQueuedAtSaveTime = c12TickQueuedAtSaveTime(engCkpt.Bytes())
+			// rebuild from scratch, as a resumed process would
+			r.build()
+			if err := r.eng.LoadCheckpoint(&engCkpt); err != nil {
+				panic(fmt.Sprintf("engine LoadCheckpoint: %v", err))
+			}
+			if err := r.comp.LoadCheckpoint(&compCkpt); err != nil {
+				panic(fmt.Sprintf("component LoadCheckpoint: %v", err))
+			}
+			r.restored = true
+			before := len(r.log)
+			r.do(c.PostLoad)
+			r.postLoadCalls = len(r.log) - before
+		}
+		if err := r.eng.Run(); err != nil {
 			panic(fmt.Sprintf("Run returned %v", err))
 		}
 	})
@@ -214,12 +296,27 @@ func genC12(rt *rapid.T) c12Case {
 	for i := 0; i < nt; i++ {
 		c.InTick = append(c.InTick, genC12Ops(rt, 2, "nintickops"))
 	}
+	switch rapid.IntRange(0, 3).Draw(rt, "ckpt") {
+	case 0:
+		c.Ckpt = c12CkptBeforeRun
+	case 1:
+		c.Ckpt = c12CkptRunUntil
+		k := uint64(rapid.IntRange(0, 12).Draw(rt, "ckptk"))
+		var off uint64
+		if rapid.IntRange(0, 2).Draw(rt, "ckptoffq") == 0 {
+			off = rapid.Uint64Range(0, per-1).Draw(rt, "ckptoff")
+		}
+		c.CkptAt = k*per + off
+	}
+	if c.Ckpt != c12CkptNone {
+		c.PostLoad = genC12Ops(rt, 2, "npostload")
+	}
 	return c
 }
 
 func TestC12TickEdges(t *testing.T) {
 	s := kit.Begin(t, "C12", "ticker",
-		"one modeling.Component built by modeling.Builder (primary) or rebuilt with NewSecondaryTickingComponent exactly as directconnection does (secondary, 1/3); f in [1 Hz,1 THz]: 40% from a list of non-divisors of 1e12 (3 GHz->333 ps, 1.5 GHz, 7 MHz, 333.3 MHz, 999999999999 Hz, 3, 7...), 20% round values, 10% 1..1000, 30% uniform; 0-2 calls before Run at t=0, 0-8 helper events (25% secondary) at k*period+{0 (50%),1,period-1,uniform}, k<=12, each issuing 1-3 of TickNow/TickLater/NotifyRecv/NotifyPortFree repeated 1-3 times; tick k returns Progress[k] (<=10 drawn, then false) and issues 0-2 calls from inside Tick for k<6. Oracle on the Tick log: time % Period()==0; strictly increasing; tick with progress at t => next tick at exactly t+period; NotifyRecv/NotifyPortFree at u => a later tick at a time > u; (documented) TickLater at u => a later tick exactly at NextTick(u). Non-trivial: >=2 wake requests inside one instant and period*f != 1e12")
+		"one modeling.Component built by modeling.Builder (primary) or rebuilt with NewSecondaryTickingComponent exactly as directconnection does (secondary, 1/3); f in [1 Hz,1 THz]: 40% from a list of non-divisors of 1e12 (3 GHz->333 ps, 1.5 GHz, 7 MHz, 333.3 MHz, 999999999999 Hz, 3, 7...), 20% round values, 10% 1..1000, 30% uniform; 0-2 calls before Run at t=0, 0-8 helper events (25% secondary) at k*period+{0 (50%),1,period-1,uniform}, k<=12, each issuing 1-3 of TickNow/TickLater/NotifyRecv/NotifyPortFree repeated 1-3 times; 50% of the cases take a checkpoint leg: after the pre-Run calls (25%) or after RunUntil(k*period[+off]) (25%) the engine's and the component's checkpoints are saved with the exported SaveCheckpoint, a fresh engine+component are built, both loaded, 0-2 further calls issued (the kick-off of a resumed main()) and the run continued, with the same oracle over the joined Tick log; tick k returns Progress[k] (<=10 drawn, then false) and issues 0-2 calls from inside Tick for k<6. Oracle on the Tick log: time % Period()==0; strictly increasing; tick with progress at t => next tick at exactly t+period; NotifyRecv/NotifyPortFree at u => a later tick at a time > u; (documented) TickLater at u => a later tick exactly at NextTick(u). Non-trivial: >=2 wake requests inside one instant and period*f != 1e12")
 	defer s.End()
 	s.Assume("TickNow is exercised as a wake source but nothing is asserted about whether it leads to a tick (C12 does not state it; see C09)")
 
@@ -324,6 +421,18 @@ func TestC12TickEdges(t *testing.T) {
 		}
 		if len(ticks) >= 5 {
 			classes = append(classes, "ticks>=5")
+		}
+		switch c.Ckpt {
+		case c12CkptBeforeRun:
+			classes = append(classes, "ckpt:after-kick-off-before-Run")
+		case c12CkptRunUntil:
+			classes = append(classes, "ckpt:after-RunUntil")
+		}
+		if r.restored && r.tickQueuedAtSaveTime {
+			classes = append(classes, "ckpt-with-tick-queued-for-current-instant")
+			if r.postLoadCalls > 0 {
+				classes = append(classes, "ckpt-with-tick-queued-for-current-instant+wake-after-restore")
+			}
 		}
 		offEdge := false
 		for _, e := range r.log {
